@@ -30,13 +30,14 @@ func init() { drivers["db"] = runDb }
 // ---- operations ---------------------------------------------------------------------------
 
 type dop struct {
-	kind string // put get pfx sess lang lock dump paths | save load (persist.Persister on the shared handle)
-	si   int    // save: which state the persister holds
-	k, v []byte
-	p    uint8
-	s    string
-	ln   *string // nil = SetLanguage(nil)
-	lk   bool
+	kind    string // put get pfx sess lang lock dump paths | save load (persist.Persister on the shared handle)
+	si      int    // save: which state the persister holds
+	k, v    []byte
+	p       uint8
+	s       string
+	ln      *string // nil = SetLanguage(nil)
+	lk      bool
+	viaPers bool // sess: through persist.Persister.WithSession on the shared handle
 }
 
 // opSep separates the two model operations a persister operation stands for
@@ -299,7 +300,12 @@ func (b *backend) apply(o dop) string {
 		case "pfx":
 			b.d.SetPrefix(o.p)
 		case "sess":
-			b.d.SetSession(o.s)
+			if o.viaPers {
+				// the session chosen the way the engine does it: through a persister on this handle
+				persist.NewPersister(b.d).WithSession(o.s)
+			} else {
+				b.d.SetSession(o.s)
+			}
 		case "lang":
 			if o.ln == nil {
 				b.d.SetLanguage(nil)
@@ -492,7 +498,10 @@ func unlockAll() []dop {
 	return ops
 }
 
-type valGen struct{ n int }
+type valGen struct {
+	n         int
+	usedEmpty bool
+}
 
 // unique short values, now and then binary, empty-ish or long (periodic)
 func (g *valGen) next(r *rand.Rand) []byte {
@@ -503,6 +512,13 @@ func (g *valGen) next(r *rand.Rand) []byte {
 		return append([]byte{0, 0xff}, base...)
 	case 1:
 		return []byte(strings.Repeat(base+"\n", 40)[:100+g.n])
+	case 2, 3:
+		// the empty value, at most once per history (values identify their writer in the C11 monitor):
+		// an entry that exists and is empty is not an absent entry
+		if !g.usedEmpty {
+			g.usedEmpty = true
+			return []byte{}
+		}
 	}
 	return []byte(base)
 }
@@ -782,6 +798,7 @@ func (rn *dbrunner) corpus() error {
 		{"corpus:odd-prefix", cat(un, dop{kind: "lock", p: 0xf0, lk: false}, pfx(0xff), put("foo", "x"), get("foo"), paths("foo"), pfx(U), sess(""), put("k", "u"), pfx(0xff), get("Pk"), pfx(0xfe), put("", "y"), get(""), put("a", "z"), get("a"), pfx(0), put("foo", "x"), get("foo"), dump(""), pfx(3), put("q", "w"), get("q"), pfx(1), get("q"), pfx(18), sess("ss"), lng("eng"), put("k", "v"), get("k"), paths("k"))},
 		{"corpus:empty-and-dir-names", cat(un, pfx(U), get(""), put("", "e"), get(""), put("/..", "x"), get("/.."), put("a/b", "x"), get("a/b"), put("k", "v"), get("k/x"), put("/../../zz", "out"), get("/../../zz"), paths("/../../zz"), get("a\x00b"), put("a\x00b", "x"), put(".", "d"), get("."), dump(""))},
 		{"corpus:locks-and-seal", cat(nil, pfx(B), put("foo", "x"), get("foo"), dop{kind: "lock", p: B, lk: false}, put("foo", "y"), get("foo"), dop{kind: "lock", p: B, lk: true}, put("foo", "z"), get("foo"), dop{kind: "lock", p: B | M, lk: false}, pfx(M), put("m", "1"), dop{kind: "lock", p: 0, lk: true}, put("m", "2"), get("m"), dop{kind: "lock", p: M, lk: false}, put("m", "3"), get("m"), pfx(U), put("u", "4"), get("u"), pfx(0x21), put("u", "5"))},
+		{"corpus:empty-translation", cat(un, pfx(M), put("foo", "d"), lng("nor"), put("foo", ""), get("foo"), lng("swa"), get("foo"), nolng, get("foo"), pfx(dbTemplate()), lng("nor"), put("bar", ""), get("bar"), nolng, get("bar"))},
 		{"corpus:languages", cat(un, pfx(M), put("foo", "d"), lng(""), put("foo", "e"), get("foo"), paths("foo"), lng("eng"), get("foo"), put("foo", "f"), get("foo"), nolng, get("foo"), get("foo_eng"), put("goto_foo", "g"), dump("g"), lng("a/b"), put("k", "h"), pfx(U), lng("eng"), put("foo", "u"), get("foo"), paths("foo"), pfx(dbTemplate()), lng("en"), put("abc", "t"), nolng, get("abc_en"), dump(""))},
 	}
 	for _, c := range cases {
@@ -878,6 +895,8 @@ func persistCorpus() [][]dop {
 		{{kind: "sess", s: "alice"}, {kind: "save", k: k, si: 1}, {kind: "pfx", p: U}, {kind: "put", k: k, v: persistRecord(2)},
 			{kind: "load", k: k}, {kind: "pfx", p: U}, {kind: "get", k: k}, {kind: "load", k: k}, {kind: "save", k: k, si: 3},
 			{kind: "pfx", p: U}, {kind: "load", k: k}},
+		{{kind: "sess", s: "alice", viaPers: true}, {kind: "save", k: k, si: 7}, {kind: "sess", s: "", viaPers: true}, {kind: "load", k: k},
+			{kind: "save", k: k, si: 8}, {kind: "sess", s: "alice", viaPers: true}, {kind: "load", k: k}},
 		{{kind: "sess", s: "alice"}, {kind: "pfx", p: U}, {kind: "put", k: k, v: persistRecord(4)}, {kind: "load", k: k},
 			{kind: "save", k: k, si: 5}, {kind: "sess", s: "bob"}, {kind: "pfx", p: U}, {kind: "load", k: k},
 			{kind: "pfx", p: S}, {kind: "put", k: k, v: persistRecord(6)}, {kind: "load", k: k},
@@ -916,7 +935,7 @@ func genPersist(r *rand.Rand, thorough bool) []dop {
 		case x < 76:
 			ops = append(ops, dop{kind: "pfx", p: []uint8{U, U, S, docTypes[r.Intn(6)]}[r.Intn(4)]})
 		case x < 84:
-			ops = append(ops, dop{kind: "sess", s: sessPool[r.Intn(2)]})
+			ops = append(ops, dop{kind: "sess", s: sessPool[r.Intn(2)], viaPers: r.Intn(2) == 0})
 		case x < 92:
 			ops = append(ops, dop{kind: "get", k: k})
 		default: // anything stored under STATE must be a record, or Load has nothing to re-serialize
